@@ -14,10 +14,10 @@
 
     The judge is the property itself.  Classification of a failing observation into a known-finding class is by the
     INTERNAL-ERROR SITE (kind + site text + a fragment of the message), not by the program: mutated corpus programs have
-    no tree a structural predicate could look at.  Two classes that were found from the model of codegen.rs also have a
-    structural predicate on the mini-HIR (Check.v: known_while_cond, known_del_arg). *)
-From Coq Require Import ZArith List Bool String Ascii.
-From ErgV Require Import Common.Sx.
+    no tree a structural predicate could look at.  The two (repaired) classes that were found from the model of codegen.rs
+    also have a structural predicate on the mini-HIR (Check.v: legacy_while_cond, legacy_lambda_kwdefaults). *)
+From Coq Require Import ZArith List Bool.
+From ErgV Require Import Common.Sx gen.KnownC07.
 Import ListNotations.
 Open Scope Z_scope.
 
@@ -29,7 +29,6 @@ Definition crashed (o : obs) : bool := negb ((o_kind o =? 0) || (o_kind o =? 1))
 Definition judge (os : list obs) : bool := forallb (fun o => negb (crashed o)) os.
 
 (* ------------------------------------------------------------------ text matching *)
-Definition cps (x : string) : list Z := map (fun c => Z.of_nat (nat_of_ascii c)) (list_ascii_of_string x).
 
 Fixpoint zs_eqb (a b : list Z) : bool :=
   match a, b with
@@ -50,21 +49,10 @@ Fixpoint is_infix (p l : list Z) : bool :=
 (** a class: identifier (the "id" of the entry in /verif/known/C07.json), kind, exact site text, message fragment *)
 Record kclass := mkClass { k_id : Z; k_kind : Z; k_site : list Z; k_msg : list Z }.
 
-Definition known_classes : list kclass := [
-  (* 1: arithmetic on the result of an operator applied to two untyped parameters: `f a, b = a * b + 1` *)
-  mkClass 1 3 (cps "message:NameError: Type * is not found") (cps ".Output is not found");
-  (* 2: the same inference state reached at module level after an undefined name: get_call_t panics on a
-        quantified operator type *)
-  mkClass 2 2 (cps "crates/erg_compiler/context/inquire.rs:get_call_t") (cps "has qvar");
-  (* 3: while! whose condition is neither a lambda nor an identifier: emit_while_instr `_ => todo!()` *)
-  mkClass 3 2 (cps "crates/erg_compiler/codegen.rs:emit_while_instr") (cps "not yet implemented");
-  (* 4: method definitions attached to something that is not a class: link_ast.rs unwrap *)
-  mkClass 4 2 (cps "crates/erg_compiler/link_ast.rs:link") (cps "Option::unwrap()");
-  (* 5: compile-time `==` between a type and a record type in a class definition *)
-  mkClass 5 3 (cps "caused-from:eval_bin") [];
-  (* 6: Inherit of something that is not a class *)
-  mkClass 6 3 (cps "caused-from:lower_class_def") []
-].
+(** the table is generated from /verif/known/C07.json (entries with status "finding") by checks/c07.py into
+    coq/gen/KnownC07.v as (id, kind, site, message fragment) with the texts as code points *)
+Definition known_classes : list kclass :=
+  map (fun r : Z * Z * list Z * list Z => mkClass (fst (fst (fst r))) (snd (fst (fst r))) (snd (fst r)) (snd r)) known_classes_raw.
 
 Definition in_class (c : kclass) (o : obs) : bool :=
   (k_kind c =? o_kind o) && zs_eqb (k_site c) (o_site o) && is_infix (k_msg c) (o_msg o).
